@@ -14,6 +14,17 @@ PURE = "Props/C11_effects_pure.v"
 FNARGS = "Props/C11_effects_fnargs.v"
 
 
+def alias_search(D, name, cls, items):
+    """a write through an alias of an argument is searched with the argument probe first"""
+    n = 0
+    if any(a[0] == "Clobber" and a[1][0] == "ArgAlias" for a in items):
+        n, w = D.probe_args(name, cls)
+        if w:
+            return n, w
+    n2, w = D.probe_alias(name, cls)
+    return n + n2, w
+
+
 def run(ctx):
     from .. import effects_dyn as D
     rep = P.load_report()
@@ -25,9 +36,15 @@ def run(ctx):
     # ---- alias check ---------------------------------------------------------------------------
     s = ctx.stream("effects:alias-check (static verdict per class + search on flagged classes)")
     flagged, explained = set(), bool(aborted - {"functional"})
+    flagged_args = set()
+    base_caused = {}
     for cls, ent in rep["classes"].items():
         atoms = EC.class_atoms(ent, base)
         offs = EC.alias_offences(atoms)
+        own = set(EC.class_atoms(ent, {}))
+        for a in [a for a in offs if a not in own]:        # offence introduced by a metric.py method
+            base_caused.setdefault(cls, []).append(a)
+        offs = [a for a in offs if a in own]
         ip = sorted(EC.ip_fields(atoms))
         s.case((cls, "alias-static"), bool(ip), sample={"class": cls, "in_place_fields": ip, "offences": [list(a) for a in offs]})
         if not offs:
@@ -43,7 +60,32 @@ def run(ctx):
             P.report_offence(ctx, s, "C11", cls, "noninterference_all_classes",
                              {"check": "alias (C1/C1'/C2)", "offending_statements": [list(a) for a in items],
                               "where": sum((P.sites_of(rep, cls, atom=a) for a in items), [])},
-                             (lambda c=cls: D.probe_alias(c, classes[c])) if cls in classes else (lambda: (0, None)), fid, "alias")
+                             (lambda c=cls, it=items: alias_search(D, c, classes[c], it)) if cls in classes else (lambda: (0, None)), fid, "alias")
+            if any(a[0] == "Clobber" and a[1][0] == "ArgAlias" for a in items):
+                flagged_args.add(cls)
+    if base_caused:
+        s.count("alias:OFFENDER(base class)", len(base_caused))
+        explained = True
+        first = next(iter(base_caused))
+        w = None
+        for mode in ("reset", "load", "state_dict", "add_state"):
+            for c in list(base_caused)[:6]:
+                try:
+                    _, w = D.probe_copies(c, classes[c], mode)
+                except Exception:  # noqa: BLE001
+                    w = None
+                if w:
+                    break
+            if w:
+                break
+        detail = {"broken": "noninterference_all_classes", "check": "alias (C1/C1'/C2) -- offence introduced by a base-class method of metric.py",
+                  "affected_classes": sorted(base_caused), "offending_statements": [list(a) for a in base_caused[first]],
+                  "where": [f"{x['method']}[{x.get('kind')}]:{x['line']}: {x['src']}" for x in rep["sites"].get("Metric", [])
+                            if any(tuple(P.tup(x["atom"]))[0] == a[0] and len(a) > 2 and P.tup(x["atom"])[-1][0] == a[2][0] for a in base_caused[first])][:6]}
+        if w:
+            ctx.violation("failing-input", "Metric (base class)", dict(detail, **w))
+        else:
+            ctx.violation("no-failing-input-found", "Metric (base class)", detail)
     P.mark_collateral(ctx, [ALIAS], explained)
 
     # ---- compute purity ------------------------------------------------------------------------
@@ -91,4 +133,4 @@ def run(ctx):
     # ---- dynamic validation of the static verdicts on every class --------------------------------
     P.dynamic_validation(ctx, "effects:dyn merge-leaves-sources-unchanged (all classes)", D.probe_alias, flagged, "tie:dyn-alias")
     P.dynamic_validation(ctx, "effects:dyn compute-pure-and-idempotent (all classes)", D.probe_pure, flagged_p, "tie:dyn-pure")
-    P.dynamic_validation(ctx, "effects:dyn update-leaves-arguments-unchanged (all classes)", D.probe_args, set(), "tie:dyn-args")
+    P.dynamic_validation(ctx, "effects:dyn update-leaves-arguments-unchanged (all classes)", D.probe_args, flagged_args, "tie:dyn-args")
